@@ -172,3 +172,13 @@ Fixpoint last_sp_from (spchk : bool) (rs : list rec) (pos n fpos : Z) : Z :=
     else fpos
   end.
 Definition last_sp (spchk : bool) (rs : list rec) (n : Z) : Z := last_sp_from spchk rs 0 n 0.
+
+(* ---- sizes, and "every segment header covers only bytes that are in the file": what a replay that runs to the end
+   of the file needs (checkpoint of a live store) and what the corruption theorems of C05 assume of the intact log;
+   checked on every real log by checks/C05.py (chk: fit) *)
+Fixpoint size (rs : list rec) : Z := match rs with [] => 0 | r :: t => rec_size r + size t end.
+Fixpoint sep_fit (rs : list rec) (pos total : Z) : bool :=
+  match rs with
+  | [] => true
+  | r :: t => (match r with RSep _ len => pos + sizeof_WBSEP + len <=? total | _ => true end) && sep_fit t (pos + rec_size r) total
+  end.
